@@ -17,7 +17,7 @@ EXTRA = {'C01-A': ['C03'], 'C01-B': ['C08'], 'C02-A': ['C14', 'C10'], 'C02-B': [
          'C10-E': ['C03'], 'C13-E': ['C03'], 'C15-E': ['C14'], 'C16-E': ['C03'], 'C16-F': ['C15'],
          'C04-E': ['C07'], 'C05-E': ['C04'], 'C05-F': ['C04'], 'C07-E': ['C14'], 'C07-F': ['C04'], 'C09-E': ['C08'], 'C11-F': [], 'C12-E': ['C06'], 'C14-F': [], 'C17-F': ['C13'], 'C18-E': ['C09'], 'C18-F': ['C03'],
          'C01-G': ['C08'], 'C02-G': ['C11'], 'C05-G': ['C18'], 'C06-G': ['C01'], 'C07-G': ['C14'], 'C08-G': ['C09'], 'C10-G': ['C03'], 'C12-G': [], 'C13-G': ['C03'], 'C17-G': ['C14'], 'C18-G': ['C09'],
-         'C04-I': ['C07'], 'C04-J': ['C07'], 'C09-I': [], 'C09-J': [], 'C05-I': ['C07'], 'C01-I': ['C08'], 'C01-J': ['C10'], 'C02-I': ['C11'], 'C02-J': ['C11'], 'C10-I': ['C03'], 'C10-J': ['C14'], 'C07-I': ['C14'], 'C07-J': ['C14'], 'C18-I': ['C04'], 'C18-J': ['C09'],
+         'C03-I': [], 'C06-I': ['C12'], 'C08-I': ['C10', 'C03'], 'C13-I': ['C03'], 'C04-I': ['C07'], 'C04-J': ['C07'], 'C09-I': [], 'C09-J': [], 'C05-I': ['C07'], 'C01-I': ['C08'], 'C01-J': ['C10'], 'C02-I': ['C11'], 'C02-J': ['C11'], 'C10-I': ['C03'], 'C10-J': ['C14'], 'C07-I': ['C14'], 'C07-J': ['C14'], 'C18-I': ['C04'], 'C18-J': ['C09'],
          'C06-H': ['C03'], 'C15-H': ['C03'], 'C13-H': [], 'C03-H': [], 'C08-H': [], 'C14-H': [], 'C11-H': [], 'C12-H': [], 'C16-H': []}
 NEEDS = json.load(open(os.path.join(V, 'lib', 'seeded_needs.json')))
 
